@@ -562,12 +562,15 @@ pub fn run_c11(a: &Args, out: &mut Out) {
     let mut sizes: Vec<usize> = (0..=40).collect();
     sizes.extend([255usize, 256, 65535, 65536, 70000]);
     for d in 0..6 { sizes.push((1 << 14) - 3 + d); }
+    if thorough { sizes.extend([257usize, 600, 1024, 1100]); }
     for (i, &n) in sizes.iter().enumerate() {
         let mut r = rng.fork(i as u64);
         // every access path: root, nested, by name, by index, key-at-index; strings at all sizes,
         // arrays/maps at the small sizes and 255/256 (quick) or all sizes (thorough: the list-based model is quadratic)
         let s: Vec<u8> = (0..n).map(|k| b'a' + (k % 26) as u8).collect();
-        let big_containers = thorough || n <= 256;
+        // the list-based extracted model costs ~n^2 per container: keep containers the model has to follow
+        // at or just past the inline-length limit; far larger ones are read at W=32 against the eager decode (class huge)
+        let big_containers = n <= 256 || (thorough && n <= 1100);
         let key: Vec<u8> = if n >= 1 && n <= 300 { s.clone() } else { b"k".to_vec() };
         let mut entries = vec![(Wire::Str(str_fmt(&mut r, key.len(), false), key.clone()), { let m = r.chance(70); Wire::Str(str_fmt(&mut r, n, m), s.clone()) })];
         if big_containers {
